@@ -15,13 +15,18 @@ use ndarray::arr1;
 // sub-term, the result must be the ghost's answer.  All finite f32 coordinates; 2-term sums have a single
 // order, so == is exact; NaN (inf - inf after overflow) must agree.
 fn same(x: f32, y: f32) -> bool { x == y || (x.is_nan() && y.is_nan()) }
+fn small2() -> [f32; 2] {
+    let v: [i8; 2] = kani::any();
+    kani::assume(v[0] >= -8 && v[0] <= 8 && v[1] >= -8 && v[1] <= 8);
+    [v[0] as f32, v[1] as f32]
+}
 fn fin2() -> [f32; 2] {
     let a: [f32; 2] = kani::any();
     kani::assume(a[0].is_finite() && a[1].is_finite());
     a
 }
 
-// @unit class=bounded tier=quick mem=light bound="dim=2" fns=linfa_kernel::KernelMethod::distance
+// @unit class=bounded tier=thorough mem=light timeout=1200 bound="dim=2" fns=linfa_kernel::KernelMethod::distance
 #[kani::proof]
 #[kani::unwind(10)]
 #[kani::stub(alloc::fmt::format, fmt_stub)]
@@ -32,14 +37,13 @@ fn c06_method_linear_dim2() {
     let k = m.distance(pa.view(), pb.view());
     let t = a[0] * b[0] + a[1] * b[1];
     assert!(same(k, t));
-    assert!(same(m.distance(pb.view(), pa.view()), k));
     assert!(m.is_linear());
     kani::cover!(k.is_finite() && k != 0.0 && a[0] != b[0] && a[1] != 0.0 && b[1] != 0.0);
     kani::cover!(k.is_nan());
     kani::cover!(k < 0.0);
 }
 
-// @unit class=bounded tier=quick mem=light bound="dim=1" fns=linfa_kernel::KernelMethod::distance
+// @unit class=bounded tier=quick mem=light timeout=240 bound="dim=1" fns=linfa_kernel::KernelMethod::distance
 #[kani::proof]
 #[kani::unwind(10)]
 #[kani::stub(alloc::fmt::format, fmt_stub)]
@@ -50,18 +54,17 @@ fn c06_method_linear_dim1() {
     let m: KernelMethod<f32> = KernelMethod::Linear;
     let k = m.distance(pa.view(), pb.view());
     assert!(k == a * b);
-    assert!(m.distance(pb.view(), pa.view()) == k);
     kani::cover!(k.is_finite() && k != 0.0);
     kani::cover!(k == f32::NEG_INFINITY);
 }
 
-// @unit class=bounded tier=quick mem=light bound="dim=2" fns=linfa_kernel::KernelMethod::distance
+// @unit class=bounded tier=quick mem=light timeout=240 bound="dim=2,coords in -8..8" fns=linfa_kernel::KernelMethod::distance
 #[kani::proof]
 #[kani::unwind(10)]
 #[kani::stub(alloc::fmt::format, fmt_stub)]
 #[kani::stub(f32::exp, ghost_exp32)]
 fn c06_method_gaussian_dim2() {
-    let (a, b) = (fin2(), fin2());
+    let (a, b) = (small2(), small2());
     let eps: f32 = kani::any();
     kani::assume(!eps.is_nan() && eps != 0.0);
     let (pa, pb) = (arr1(&a), arr1(&b));
@@ -76,18 +79,15 @@ fn c06_method_gaussian_dim2() {
     }
     // consequences that do not depend on the value of exp: bandwidth > 0 gives a similarity in [0,1]
     if eps > 0.0 { assert!(k >= 0.0 && k <= 1.0); }
-    // symmetric in (a,b)
-    let k2 = m.distance(pb.view(), pa.view());
-    assert!(same(k2, k));
     assert!(!m.is_linear());
     kani::cover!(eps > 0.0 && sq > 0.0 && sq.is_finite() && a[0] != b[0] && a[1] != b[1]);
     kani::cover!(eps < 0.0 && sq > 0.0);
-    kani::cover!(sq == f32::INFINITY);
+    kani::cover!(arg == f32::NEG_INFINITY);
     kani::cover!(eps > 0.0 && k < 1.0);
 }
 
 // Gaussian(a,a) = 1 for every bandwidth eps > 0 (incl. subnormal and +inf), every finite a: exp(-0/eps) with exp(+-0) = 1
-// @unit class=bounded tier=quick mem=light bound="dim=2" fns=linfa_kernel::KernelMethod::distance
+// @unit class=bounded tier=quick mem=light timeout=240 bound="dim=2" fns=linfa_kernel::KernelMethod::distance
 #[kani::proof]
 #[kani::unwind(10)]
 #[kani::stub(alloc::fmt::format, fmt_stub)]
@@ -106,7 +106,7 @@ fn c06_method_gaussian_self_dim2() {
     kani::cover!(a[0] != a[1] && a[0] < 0.0);
 }
 
-// @unit class=bounded tier=quick mem=light bound="dim=1" fns=linfa_kernel::KernelMethod::distance
+// @unit class=bounded tier=quick mem=light timeout=240 bound="dim=1" fns=linfa_kernel::KernelMethod::distance
 #[kani::proof]
 #[kani::unwind(10)]
 #[kani::stub(alloc::fmt::format, fmt_stub)]
@@ -119,21 +119,20 @@ fn c06_method_gaussian_dim1() {
     let k = m.distance(pa.view(), pb.view());
     let arg = -((a - b) * (a - b)) / eps;
     unsafe {
-        assert!(G_EXP_N == 1 && G_EXP_A[0] == arg && k.to_bits() == G_EXP_R[0].to_bits());
+        assert!(G_EXP_N == 1 && same(G_EXP_A[0], arg) && k.to_bits() == G_EXP_R[0].to_bits());
     }
-    assert!(m.distance(pb.view(), pa.view()) == k);
     if eps > 0.0 { assert!(m.distance(pa.view(), pa.view()) == 1.0); }
     kani::cover!(eps > 0.0 && a != b && arg.is_finite());
     kani::cover!(eps < 0.0 && a != b);
 }
 
-// @unit class=bounded tier=quick mem=light bound="dim=2" fns=linfa_kernel::KernelMethod::distance
+// @unit class=bounded tier=quick mem=light timeout=240 bound="dim=2,coords in -8..8" fns=linfa_kernel::KernelMethod::distance
 #[kani::proof]
 #[kani::unwind(10)]
 #[kani::stub(alloc::fmt::format, fmt_stub)]
 #[kani::stub(f32::powf, ghost_powf32)]
 fn c06_method_polynomial_dim2() {
-    let (a, b) = (fin2(), fin2());
+    let (a, b) = (small2(), small2());
     let (c, d): (f32, f32) = (kani::any(), kani::any());
     kani::assume(c.is_finite() && d.is_finite());
     let (pa, pb) = (arr1(&a), arr1(&b));
@@ -145,17 +144,12 @@ fn c06_method_polynomial_dim2() {
         assert!(same(PF_X[0], base) && PF_Y[0] == d);
         assert!(k.to_bits() == PF_R[0].to_bits());
     }
-    // symmetric in (a,b): same base, same exponent => same power
-    let k2 = m.distance(pb.view(), pa.view());
-    unsafe { assert!(PF_N == 2 && same(PF_X[1], base) && PF_Y[1] == d); }
-    if !base.is_nan() { assert!(k2.to_bits() == k.to_bits()); }
     assert!(!m.is_linear());
     kani::cover!(base.is_finite() && base != c && a[1] != 0.0 && b[1] != 0.0 && c != 0.0);
-    kani::cover!(base.is_nan());
     kani::cover!(d == 3.0 && base == 2.0);
 }
 
-// @unit class=bounded tier=quick mem=light bound="dim=1" fns=linfa_kernel::KernelMethod::distance
+// @unit class=bounded tier=quick mem=light timeout=240 bound="dim=1" fns=linfa_kernel::KernelMethod::distance
 #[kani::proof]
 #[kani::unwind(10)]
 #[kani::stub(alloc::fmt::format, fmt_stub)]
@@ -168,9 +162,34 @@ fn c06_method_polynomial_dim1() {
     let k = m.distance(pa.view(), pb.view());
     let base = a * b + c;
     unsafe { assert!(PF_N == 1 && same(PF_X[0], base) && PF_Y[0] == d && k.to_bits() == PF_R[0].to_bits()); }
-    let k2 = m.distance(pb.view(), pa.view());
-    unsafe { assert!(PF_N == 2 && same(PF_X[1], base) && PF_Y[1] == d); }
-    if !base.is_nan() { assert!(k2.to_bits() == k.to_bits()); }
     kani::cover!(base.is_finite() && base != c && c != 0.0);
     kani::cover!(base == f32::INFINITY);
+}
+
+// Symmetry k(a,b) = k(b,a) for the three kernels.  Commutativity of a float multiplier is out of reach of the SAT
+// back end on the full f32 domain (measured: no answer in 10 min), so coordinates are integers in [-8,8] (every
+// intermediate exact); bandwidth / constant / degree stay arbitrary finite f32.
+// @unit class=bounded tier=quick mem=light timeout=240 bound="dim=2,coords in -8..8" fns=linfa_kernel::KernelMethod::distance
+#[kani::proof]
+#[kani::unwind(10)]
+#[kani::stub(alloc::fmt::format, fmt_stub)]
+#[kani::stub(f32::exp, ghost_exp32)]
+#[kani::stub(f32::powf, ghost_powf32)]
+fn c06_method_symmetric_dim2() {
+    let (a, b) = (small2(), small2());
+    let (eps, c, d): (f32, f32, f32) = (kani::any(), kani::any(), kani::any());
+    kani::assume(eps.is_finite() && eps != 0.0 && c.is_finite() && d.is_finite());
+    let (pa, pb) = (arr1(&a), arr1(&b));
+    let lin: KernelMethod<f32> = KernelMethod::Linear;
+    let gau: KernelMethod<f32> = KernelMethod::Gaussian(eps);
+    let pol: KernelMethod<f32> = KernelMethod::Polynomial(c, d);
+    let l1 = lin.distance(pa.view(), pb.view());
+    assert!(lin.distance(pb.view(), pa.view()) == l1);
+    let g1 = gau.distance(pa.view(), pb.view());
+    assert!(same(gau.distance(pb.view(), pa.view()), g1));
+    let p1 = pol.distance(pa.view(), pb.view());
+    assert!(same(pol.distance(pb.view(), pa.view()), p1));
+    kani::cover!(a[0] != b[0] && a[1] != b[1] && l1 != 0.0);
+    kani::cover!(g1 != 1.0 && eps > 0.0);
+    kani::cover!(p1 > 0.0 && c != 0.0);
 }
